@@ -555,6 +555,93 @@ def run_dict_order_cases(res, rng):
             res["counters"]["dict_order_cases"] = res["counters"].get("dict_order_cases", 0) + 1
 
 
+def run_inplace_reuse_cases(res, rng):
+    """One list / dict OBJECT differentiated, changed in place by its owner (an entry replaced by another shape,
+    dtype or kind, an entry appended / removed / added), and differentiated again: the second result must equal
+    the result for a fresh copy of the changed container (and the plain-container FD reference)."""
+    import copy
+
+    import autograd.numpy as anp
+    from autograd import grad, make_jvp
+
+    def f_list(c):
+        tot = 0.0
+        for k, e in enumerate(c):
+            tot = tot + anp.sum(anp.real(e) ** 2) * (k + 1.0)
+        return tot
+
+    def f_dict(c):
+        tot = 0.0
+        for k in sorted(c.keys()):
+            tot = tot + anp.sum(anp.sin(anp.real(c[k]))) * (1.0 + len(k))
+        return tot + anp.sum(c.get("extra", 0.0) * 3.0)
+
+    A_ = lambda *s: rng.uniform(0.3, 1.2, size=s)
+    steps_list = [
+        ("replace_other_shape", lambda c: c.__setitem__(0, A_(1))),
+        ("replace_scalar_by_array", lambda c: c.__setitem__(1, A_(2, 2))),
+        ("replace_array_by_scalar", lambda c: c.__setitem__(0, 0.7)),
+        ("replace_other_dtype", lambda c: c.__setitem__(0, A_(3).astype(onp.float32))),
+        ("append", lambda c: c.append(A_(2))),
+        ("pop", lambda c: c.pop()),
+        ("insert_front", lambda c: c.insert(0, 1.5)),
+        ("replace_by_complex", lambda c: c.__setitem__(0, A_(2) + 1j * A_(2))),
+        ("nested_change", lambda c: c[2].__setitem__(0, A_(4))),
+    ]
+    steps_dict = [
+        ("replace_other_shape", lambda c: c.__setitem__("w", A_(1))),
+        ("replace_other_dtype", lambda c: c.__setitem__("w", A_(3).astype(onp.float32))),
+        ("del_key", lambda c: c.__delitem__("b")),
+        ("add_used_key", lambda c: c.__setitem__("extra", A_(2))),
+        ("add_unused_key", lambda c: c.__setitem__("zz", 2.5)),
+        ("replace_array_by_scalar", lambda c: c.__setitem__("w", 0.4)),
+        ("nested_change", lambda c: c["n"].__setitem__(1, A_(3))),
+    ]
+    for kind, f, mk, steps in (("list", f_list, lambda: [A_(3), 2.0, [A_(2), 0.5]], steps_list), ("dict", f_dict, lambda: {"w": A_(3), "b": A_(2), "n": [0.3, A_(2)]}, steps_dict)):
+        for trial in range(6):
+            order = [int(t) for t in rng.permutation(len(steps))][: 4]
+            c = mk()
+            hist = []
+            with warnings.catch_warnings():
+                warnings.simplefilter("ignore")
+                try:
+                    grad(f)(c)
+                except Exception:
+                    pass
+                for si in order:
+                    name, step = steps[si]
+                    try:
+                        step(c)
+                    except Exception:
+                        continue
+                    hist.append(name)
+                    res["evaluations"] += 1
+                    sig = {"engine": "containers", "family": "inplace_reuse", "container": kind, "step": name}
+                    case = {"kind": "inplace_reuse", "container": kind, "hist": list(hist)}
+                    outs = []
+                    # the changed object first (it was also the LAST container differentiated before the change:
+                    # one-entry memos keyed on identity stay warm), then a fresh copy, then the object once more
+                    for obj in (c, copy.deepcopy(c), c):
+                        try:
+                            outs.append(("ok", grad(f)(obj)))
+                        except Exception as e:
+                            outs.append(("raised", type(e).__name__))
+                    (k1, r1), (k2, r2) = outs[0], outs[1]
+                    if k1 != k2 or (k1 == "raised" and r1 != r2):
+                        res["violations"].append({"sig": dict(sig, symptom="history_dependence"), "case": case, "detail": "after %s on the same object: %s, on a fresh copy: %s" % (hist, (k1, r1 if k1 == "raised" else "value"), (k2, r2 if k2 == "raised" else "value"))})
+                        break
+                    if k1 == "ok":
+                        if sdesc_diff(sdesc(r1), sdesc(r2)) or not onp.allclose(realify(r1), realify(r2), rtol=1e-12, atol=1e-12):
+                            res["violations"].append({"sig": dict(sig, symptom="wrong_value"), "case": case, "detail": "after %s the gradient for the same (changed in place) object %s differs from the gradient for a fresh copy %s" % (hist, common.brief(r1, 200), common.brief(r2, 200))})
+                            break
+                        d = sdesc_diff(sdesc(common.tree_map(lambda l: l, c)), sdesc(r1))
+                        if d and d != "wrong_dtype":
+                            res["violations"].append({"sig": dict(sig, symptom=d), "case": case, "detail": "gradient structure %s vs container %s" % (sdesc(r1), sdesc(c))})
+                            break
+                    res["judged"][sig_key(sig)] = res["judged"].get(sig_key(sig), 0) + 1
+    res["counters"]["inplace_reuse_checked"] = res["counters"].get("inplace_reuse_checked", 0) + 1
+
+
 def run_namedtuple_cases(res, rng):
     """Named-tuple results of linalg used as containers inside a differentiated function."""
     import autograd.numpy as anp
@@ -623,6 +710,8 @@ def run_shard(pid, tier, seed, idx, n):
         run_namedtuple_cases(res, onp.random.Generator(onp.random.PCG64([seed, 59])))
     if idx == 1 % n:
         run_dict_order_cases(res, onp.random.Generator(onp.random.PCG64([seed, 61])))
+    if idx == 2 % n:
+        run_inplace_reuse_cases(res, onp.random.Generator(onp.random.PCG64([seed, 67])))
     res["sets"] = {k: sorted(v) for k, v in res["sets"].items()}
     return res
 
@@ -634,6 +723,10 @@ def replay(pid, case):
         run_case(res, case)
     elif case["kind"] == "flatten":
         run_flatten_case(res, case)
+    elif case["kind"] == "inplace_reuse":
+        for sd in range(4):
+            run_inplace_reuse_cases(res, onp.random.Generator(onp.random.PCG64([sd, 67])))
+        res["violations"] = [v for v in res["violations"] if v["case"]["container"] == case["container"] and v["case"]["hist"][-1] == case["hist"][-1]][:1]
     elif case["kind"] == "dict_order":
         run_dict_order_cases(res, onp.random.Generator(onp.random.PCG64(61)))
         res["violations"] = [v for v in res["violations"] if v["case"] == case]
